@@ -481,6 +481,9 @@ func firstUseChild(spec string) int {
 	var ng int
 	var kind string
 	fmt.Sscanf(spec, "%d:%s", &ng, &kind)
+	if kind == "gmhs" || kind == "tlshs" {
+		return firstHandshakes(ng, kind)
+	}
 	var start, done sync.WaitGroup
 	start.Add(1)
 	errs := make([]string, ng)
@@ -547,15 +550,55 @@ func firstUseChild(spec string) int {
 	return 0
 }
 
+// firstHandshakes: the very first handshakes of a process (lazily built suite tables, Config.serverInitOnce, ticket
+// keys) all start at once on ONE server Config and ONE client Config.
+func firstHandshakes(ng int, kind string) int {
+	p := tlsx.GetPKI()
+	var cc, sc *gmtls.Config
+	if kind == "gmhs" {
+		cc, sc = tlsx.GMClient(p, "fc"), tlsx.GMServer(p, "fs")
+	} else {
+		cc, sc = tlsx.TLSClient(p, "fc"), tlsx.TLSServer(p, p.RSASrv, "fs")
+	}
+	cc.ClientSessionCache = gmtls.NewLRUClientSessionCache(4)
+	var start, done sync.WaitGroup
+	start.Add(1)
+	errs := make([]string, ng)
+	for g := 0; g < ng; g++ {
+		done.Add(1)
+		go func(g int) {
+			defer done.Done()
+			start.Wait()
+			msg := []byte(fmt.Sprint("hello from ", g))
+			r := tlsx.Run(cc, sc, tlsx.Script{ClientSend: msg, ServerSend: msg, ClientAddr: fmt.Sprint("c:", g)})
+			if r.Client.HSErr != nil || r.Server.HSErr != nil || !bytes.Equal(r.Server.Received, msg) || !bytes.Equal(r.Client.Received, msg) {
+				errs[g] = "first handshakes of the process, started together, did not all succeed: " + r.Describe()
+			}
+		}(g)
+	}
+	start.Done()
+	done.Wait()
+	for _, e := range errs {
+		if e != "" {
+			fmt.Println("FIRST-USE MISMATCH:", e)
+			return 1
+		}
+	}
+	return 0
+}
+
 func TestC20_FirstUse(t *testing.T) {
 	exe, err := os.Executable()
 	if err != nil {
 		t.Skip("no executable path")
 	}
-	kinds := []string{"basemult", "sign", "keygen", "oncurve", "params", "mixed"}
+	kinds := []string{"basemult", "sign", "keygen", "oncurve", "params", "mixed", "gmhs", "tlshs"}
 	n := hx.N(10, 120)
 	for i := 0; i < n; i++ {
 		ng := []int{2, 4, 8, 16, 32}[(i+int(hx.Seed()))%5]
+		if k := kinds[(i/5+i+hx.Shard())%len(kinds)]; (k == "gmhs" || k == "tlshs") && ng > 8 {
+			ng = 8
+		}
 		spec := fmt.Sprintf("%d:%s", ng, kinds[(i/5+i+hx.Shard())%len(kinds)])
 		cmd := exec.Command(exe, "-test.run=^$")
 		cmd.Env = append(os.Environ(), "C20_CHILD="+spec)
